@@ -909,6 +909,12 @@ namespace
             if (l.pos[0] == "bind")
             {
                 const long fbid = std::stol(l.pos.at(1));
+                if (spec_of(fbid).kind == "dfb")
+                {
+                    auto &fb = *static_cast<decltype(stdlib::feedback<DInt>(w)) *>(env.feedbacks.at(fbid).get());
+                    fb(env.dports.at(std::stol(l.pos.at(2))));
+                    continue;
+                }
                 if (spec_of(fbid).kind == "dly")
                 {
                     auto &d = *static_cast<decltype(delayed_binding<TS<Int>>(w)) *>(env.feedbacks.at(fbid).get());
@@ -1030,6 +1036,14 @@ namespace
                 auto      dl = env.dports.at(std::stol(sp.ins.at(1)));
                 auto      m  = dispatch_slot<SubG2>(k, [&]<typename G>() { return Port<void>{wire<stdlib::mesh_>(w, fn<G>(), dv, dl)}; });
                 env.dports.emplace(id, m.as<DInt>());
+            }
+            else if (kind == "dfb")
+            {
+                // feedback of a dictionary time-series: the reader sees every delta one smallest step later
+                using FB = decltype(stdlib::feedback<DInt>(w));
+                std::shared_ptr<void> h = std::make_shared<FB>(stdlib::feedback<DInt>(w));
+                env.dports.emplace(id, (*static_cast<FB *>(h.get()))());
+                env.feedbacks[id] = h;
             }
             else if (kind == "sched") { wire<VSched>(w, sid, in.at(0)); }
             else if (kind == "lsrc") { env.ports.emplace(id, wire<LSrc>(w, sid, Int{l.geti("cnt", 2)})); }
